@@ -40,6 +40,8 @@ def api_case(elements, pairs, nr, nrho, route, rot=0):
 
 def cases(tier, seed=0):
   cs = []
+  from checks import fpgrid
+  cs.append(Case("fp grid setfl", fpgrid.grid_case, target="setfl", nr=41))
   N = EC.NAMES
   if tier == "quick":
     combos = []
